@@ -1,8 +1,68 @@
-(* C11 - files (theorems are added from Proofs/ConvertProofs.v). *)
+(* C11 - what is written to disk reads back as the same network.
+   The files carry the representations of Model/Convert.v (the HIF record, the lines of an edge list,
+   the (node, edge) pairs, the incidence matrix); that the bytes on disk are these representations and
+   that reading them performs the model's from_* calls is the file-level correspondence (the written
+   files are parsed without xgi).  The theorems are the round trips on the representations, for every
+   state with the invariant Inv and without the label None (a hypothesis, as in C10). *)
 From Coq Require Import String ZArith List Bool.
-From XV Require Import Base.Label Base.LSet Base.ODict Base.Attr Base.Outcome Model.Hypergraph Model.HgCheck Model.Convert.
+From XV Require Import Base.Label Base.LSet Base.ODict Base.Attr Base.Outcome Model.Hypergraph Model.HgCheck Model.Convert
+  Proofs.HgViews Proofs.HgInv Proofs.HgStep Proofs.HgErrors Proofs.DerivedProofs Proofs.ConvertProofs.
 Import ListNotations.
 Open Scope Z_scope.
+
+(* read_hif(write_hif(H)): nodes incl. isolated, edges incl. empty, incidences, every attribute dict
+   (an empty dict updated with the source's), network attributes *)
+Theorem C11_hif_roundtrip : forall s, Inv s -> NoNone s ->
+  let r := from_hif (to_hif s) in
+  let t := st_of r in
+  out_of r = Ok /\ Inv t /\
+  (forall n e, In n (mems t e) <-> In n (mems s e)) /\
+  (forall x, In x (nkeys t) <-> In x (nkeys s)) /\
+  (forall y, In y (ekeys t) <-> In y (ekeys s)) /\
+  (forall n, In n (nkeys s) -> geta n (h_nattr t) = aupdate [] (geta n (h_nattr s))) /\
+  (forall e, In e (ekeys s) -> geta e (h_eattr t) = aupdate [] (geta e (h_eattr s))) /\
+  h_net t = h_net s.
+Proof. exact hif_roundtrip. Qed.
+Print Assumptions C11_hif_roundtrip.
+
+(* what reading ANY well-formed HIF record builds, whatever the order of its records *)
+Theorem C11_from_hif_spec : forall h,
+  NoNonePairs (hf_inc h) -> NoDup (map fst (hf_nodes h)) -> (forall r, In r (hf_nodes h) -> fst r <> LNone) ->
+  NoDup (map fst (hf_edges h)) ->
+  let r := from_hif h in
+  let t := st_of r in
+  out_of r = Ok /\ Inv t /\
+  (forall y x, In x (mems t y) <-> In (x, y) (hf_inc h)) /\
+  (forall x, In x (nkeys t) <-> (exists e, In (x, e) (hf_inc h)) \/ In x (map fst (hf_nodes h))) /\
+  (forall y, In y (ekeys t) <-> (exists n, In (n, y) (hf_inc h)) \/ In y (map fst (hf_edges h))) /\
+  (forall n a, In (n, a) (hf_nodes h) -> geta n (h_nattr t) = aupdate [] a) /\
+  (forall x, ~ In x (map fst (hf_nodes h)) -> geta x (h_nattr t) = []) /\
+  (forall e a, In (e, a) (hf_edges h) -> geta e (h_eattr t) = aupdate [] a) /\
+  (forall y, ~ In y (map fst (hf_edges h)) -> geta y (h_eattr t) = []) /\
+  h_net t = hf_net h.
+Proof. exact from_hif_spec. Qed.
+Print Assumptions C11_from_hif_spec.
+
+(* read_edgelist(write_edgelist(H)): the same member sets in the same order *)
+Theorem C11_edgelist_roundtrip : forall s, Inv s -> NoNone s ->
+  let r := from_edge_lines (to_hyperedge_list s) in
+  let t := st_of r in
+  out_of r = Ok /\ Inv t /\
+  ekeys t = map (fun j => LInt (Z.of_nat j)) (seq 0 (length (h_edge s))) /\
+  (forall j, (j < length (h_edge s))%nat -> seteq (mems t (LInt (Z.of_nat j))) (snd (nth j (h_edge s) (LNone, [])))).
+Proof. exact edge_lines_roundtrip. Qed.
+Print Assumptions C11_edgelist_roundtrip.
+
+(* read_bipartite_edgelist(write_bipartite_edgelist(H)): exactly the same incidences *)
+Theorem C11_bipartite_file_roundtrip : forall s, Inv s -> NoNone s ->
+  let r := add_pairs (to_bipartite_edgelist s) hg_empty in
+  out_of r = Ok /\ forall n e, In n (mems (st_of r) e) <-> In n (mems s e).
+Proof.
+  intros s I NN. cbv zeta. pose proof I as (_ & (_ & _ & _ & Ke) & _).
+  destruct (add_pairs_effect (to_bipartite_edgelist s) hg_empty (NoNonePairs_bip s I NN)) as [O1 M1].
+  split; [exact O1|]. intros n e. rewrite M1, (In_bipartite_edgelist s n e Ke). split; [intros [H|[]]; exact H|auto].
+Qed.
+Print Assumptions C11_bipartite_file_roundtrip.
 
 Example C11_nonvacuous :
   let s := run [OAddEdgesFrom (EB1 [[LInt 1; LInt 2; LInt 3]; []; [LInt 3; LInt 4]]) []; OAddNode (LInt 9) [("c"%string, AInt 1)]] hg_empty in
